@@ -12,6 +12,10 @@
 //   relax_ilu_solve L U D b
 //   relax_lu_check kind k A L U D         (V-grade; L U D = what the implementation produced at generation time)
 //   relax_spai1_check A M                 (V-grade; M = the implementation's spai1::M)
+//   relax_spai1_m A                       relax_spai1_pre|post A f x tmp      relax_spai1_apply A f
+//                                         (F-grade: faithful model Model/RelaxSpai1.lean; M in stored order, exact equality)
+//   relax_ilupw_factors k A               relax_ilupw_pre|post k w A f x tmp  relax_ilupw_apply k A f   relax_ilupw_pad k A
+//                                         (F-grade: ilup.hpp as written, Model/RelaxIlup.lean)
 // Results: sweeps `x' tmp'`, apply `x'`, outcomes `precondition`, `bad-input`.
 //
 // Implementation-side oracles (independent of the Lean model, exact arithmetic, dense):
@@ -22,7 +26,10 @@
 //   * ILU family: factors read through apply() on unit vectors (B^-1 column by column, inverted and LU-split
 //     exactly); (L U)_ij = a_ij on the admitted pattern, factors inside the pattern, exact inverse on
 //     tridiagonal / arrow patterns and for ILU(k), k >= n;
-//   * SPAI-1: pattern of M = pattern of A, normal equations (exact where the rational sqrt is exact, else <= 2^-16).
+//   * SPAI-1: pattern of M = pattern of A, normal equations (exact where the rational sqrt is exact, else <= 2^-16 on strictly
+//     diagonally dominant matrices), sweep = x + M (f - A x), apply = M f with the implementation's own M;
+//   * ILUP as written: factors = dense ILU(0) recurrence on A padded to the dense boolean power pattern, (L U)_ij = a_ij on that
+//     pattern, real ilup(A, k) == real ilu0(padded matrix) as operators.
 #include "gen.hpp"
 #include <amgcl/relaxation/damped_jacobi.hpp>
 #include <amgcl/relaxation/spai0.hpp>
@@ -403,6 +410,65 @@ static Result execute(const Toks &t) {
             for (auto jj = Am.ptr[i]; jj < Am.ptr[i+1]; ++jj) { long k = Am.col[jj]; Q s(0); for (long j = 0; j < n; ++j) s += res[j] * A[k][j]; if (s != 0) exact = false; if (qabs(s) > eps) tol = false; } }
         if (!samepat) r.fail("spai1: pattern of M differs from the pattern of A"); if (!tol) r.fail("spai1: normal equations violated beyond 2^-16");
         r.out = (Line() << samepat << exact << tol).get(); r.tag("spai1"); if (exact) r.tag("spai1_exact"); struct_tags(Am); r.nontrivial = n > 1 && Am.col.size() > (size_t)n;
+    } else if (op == "relax_ilupw_factors" || op == "relax_ilupw_pad" || op == "relax_ilupw_pre" || op == "relax_ilupw_post" || op == "relax_ilupw_apply") {
+        // F-grade: the REAL ilup against the model of ilup.hpp as written (Model/RelaxIlup.lean: symb_product with its marker arrays,
+        // the scatter loop, ilu0 on the padded matrix)
+        typedef amgcl::relaxation::ilup<Backend> RP; typedef amgcl::relaxation::ilu0<Backend> R0;
+        long k = c.nat(); Q w(1); Mat Am; QV f, x, tmp; if (k < 0) throw bad_input("k");
+        if (op == "relax_ilupw_factors" || op == "relax_ilupw_pad") { Am = c.mat(); c.expect_end(); if (!square_wf(Am)) throw bad_input("shape"); }
+        else if (op == "relax_ilupw_apply") apply_args(Am, f); else { w = c.rat(); sweep_args(Am, f, x, tmp); }
+        if (!sorted(Am) || !has_diag(Am)) throw bad_input("structure");
+        auto A = Am.crs(); Dense D = dense(Am); long n = Am.n; RP::params prm; prm.k = (int)k; prm.damping = w;
+        Pat P; adm_pattern("ilup", k, Am, P); Mat Pm = k == 0 ? Am : pad_to(Am, P);      // independent: dense boolean power, values of A
+        std::unique_ptr<RP> rp; bool pre_fail = false;
+        try { rp.reset(new RP(*A, prm, bprm)); } catch (const bad_input&) { throw; } catch (const std::runtime_error&) { pre_fail = true; }
+        if (op == "relax_ilupw_pad") {
+            // P is a local of the constructor: what is printed is the harness' own padded matrix; the oracle ties it to the real class:
+            // ilup(A, k) and ilu0(padded matrix) must be the same operator (or fail the same precondition)
+            auto Pc = Pm.crs(); R0::params p0; std::unique_ptr<R0> r0; bool pre0 = false;
+            try { r0.reset(new R0(*Pc, p0, bprm)); } catch (const bad_input&) { throw; } catch (const std::runtime_error&) { pre0 = true; }
+            if (pre0 != pre_fail) r.fail("ilup(A, k) and ilu0(A padded to the pattern of A^(k+1)) disagree on the precondition");
+            else if (!pre0) for (long j = 0; j < n && r.ok; ++j) { QV e(n, Q(0)); e[j] = Q(1); if (!veq(run_apply(*rp, *A, e), run_apply(*r0, *Pc, e))) r.fail("ilup(A, k) is not ilu0 of A padded to the pattern of A^(k+1)"); }
+            Line lo; lo << Pm; r.out = lo.get(); r.tag("ilupw_pad"); r.tag("ilupw" + std::to_string(k)); struct_tags(Am); r.nontrivial = n > 1 && Am.col.size() > (size_t)n; return r;
+        }
+        if (pre_fail) { r.out = "precondition"; r.tag("ilupw_precondition"); r.nontrivial = n > 1; return r; }
+        Factors F; bool okF = read_factors(*rp, *A, F);
+        if (!okF) { r.tag("ilupw_singular"); if (op == "relax_ilupw_factors") { r.out = "singular"; r.nontrivial = n > 1; return r; } }
+        Factors Ref; if (okF && !(asis_reference("ilup", k, Am, Ref) && factors_eq(Ref, F))) r.fail("ilup: factors differ from the dense reference recurrence (ILU(0) of A padded to the pattern of A^(k+1))");
+        if (okF) { bool onpat, inpat, exact; lu_flags<int>("ilup", k, Am, F, onpat, inpat, exact); if (!onpat) r.fail("ilup: (L U)_ij != a_ij on the pattern of A^(k+1)"); if (!inpat) r.fail("ilup: factor entry outside the pattern of A^(k+1)"); if (exact) r.tag("ilupw_exact"); }
+        Dense B = okF ? lu_product(F) : D;
+        if (op == "relax_ilupw_factors") { Line lo; lo << F.L << F.U << F.D; r.out = lo.get(); r.tag("ilupw_factors"); }
+        else if (op == "relax_ilupw_apply") { QV y = run_apply(*rp, *A, f); if (okF && !veq(dmv(B, y), f)) r.fail("ilup apply: (L U) y != f"); r.out = (Line() << y).get(); r.tag("ilupw_apply"); }
+        else { QV x1, t1; sweep_case(r, *rp, Am, *A, f, x, tmp, op == "relax_ilupw_pre", x1, t1); QV res = vsub(f, dmv(D, x)); if (okF && !veq(dmv(B, t1), res)) r.fail("ilup sweep: (L U) tmp != f - A x"); if (!veq(vsub(x1, x), vscale(w, t1))) r.fail("ilup sweep: x' - x != damping * tmp"); r.tag("ilupw_sweep"); }
+        r.tag("ilupw" + std::to_string(k)); struct_tags(Am); r.nontrivial = n > 1 && Am.col.size() > (size_t)n;
+    } else if (op == "relax_spai1_m" || op == "relax_spai1_pre" || op == "relax_spai1_post" || op == "relax_spai1_apply") {
+        // F-grade: the REAL spai1 against the faithful model Model/RelaxSpai1.lean (exact equality of M and of the sweeps; the
+        // Householder QR runs with the same rational pseudo square root on both sides)
+        typedef amgcl::relaxation::spai1<Backend> R; Mat Am; QV f, x, tmp;
+        if (op == "relax_spai1_m") { Am = c.mat(); c.expect_end(); if (!square_wf(Am)) throw bad_input("shape"); }
+        else if (op == "relax_spai1_apply") apply_args(Am, f); else sweep_args(Am, f, x, tmp);
+        for (long i = 0; i < Am.n; ++i) if (Am.ptr[i+1] == Am.ptr[i]) throw bad_input("empty row: spai1 forms &B[0] on an empty vector");
+        auto A = Am.crs(); R relax(*A, R::params(), bprm); long n = Am.n;
+        Mat M; M.n = Am.n; M.m = Am.m; { const Crs &C = *relax.M; M.ptr.assign(C.ptr, C.ptr + C.nrows + 1); M.col.assign(C.col, C.col + C.nnz); M.val.assign(C.val, C.val + C.nnz); }
+        if (!(M.ptr == Am.ptr && M.col == Am.col)) r.fail("spai1: pattern of M differs from the pattern of A");
+        Dense D = dense(Am), Md = dense(M); bool nd = nodup(Am);
+        // least-squares oracle (independent of the library's QR): normal equations of min || e_i - m A ||_2 over the pattern of row i,
+        // exact where the rational square root happened to be exact, else up to 2^-16 on strictly diagonally dominant matrices
+        // (full column rank, well conditioned local problems); wide / rank deficient local problems are only compared with the model
+        bool sdd = true; for (long i = 0; i < n; ++i) { Q s(0); for (long j = 0; j < n; ++j) if (j != i) s += qabs(D[i][j]); if (!(s < qabs(D[i][i]))) sdd = false; }
+        if (nd) {
+            bool exact = true, tol = true; Q eps = Q::frac(1, 1L << 16);
+            for (long i = 0; i < n; ++i) { QV res(n); for (long j = 0; j < n; ++j) { Q s(i == j ? 1 : 0); for (long l = 0; l < n; ++l) s -= Md[i][l] * D[l][j]; res[j] = s; }
+                for (auto jj = Am.ptr[i]; jj < Am.ptr[i+1]; ++jj) { long k = Am.col[jj]; Q s(0); for (long j = 0; j < n; ++j) s += res[j] * D[k][j]; if (s != 0) exact = false; if (qabs(s) > eps) tol = false; } }
+            if (exact) r.tag("spai1_exact");
+            if (sdd) { r.tag("spai1_sdd"); if (!tol) r.fail("spai1: normal equations violated beyond 2^-16 on a strictly diagonally dominant matrix"); }
+        } else r.tag("spai1_dups");
+        { bool wide = false; for (long i = 0; i < n && !wide; ++i) { std::set<long> J; for (auto j = Am.ptr[i]; j < Am.ptr[i+1]; ++j) { long cc = Am.col[j]; for (auto jj = Am.ptr[cc]; jj < Am.ptr[cc+1]; ++jj) J.insert(Am.col[jj]); } if ((long)J.size() < Am.ptr[i+1] - Am.ptr[i]) wide = true; } if (wide) r.tag("spai1_wide"); }
+        if (op == "relax_spai1_m") { Line lo; lo << M; r.out = lo.get(); r.tag("spai1_m"); }
+        else if (op == "relax_spai1_apply") { QV y = run_apply(relax, *A, f); if (!veq(y, dmv(Md, f))) r.fail("spai1 apply != M f"); r.out = (Line() << y).get(); r.tag("spai1_apply"); }
+        else { QV x1, t1; sweep_case(r, relax, Am, *A, f, x, tmp, op == "relax_spai1_pre", x1, t1); QV res = vsub(f, dmv(D, x)), mr = dmv(Md, res), ref(n); for (long i = 0; i < n; ++i) ref[i] = x[i] + mr[i];
+            if (!veq(x1, ref)) r.fail("spai1 sweep != x + M (f - A x)"); if (!veq(t1, res)) r.fail("spai1 tmp != f - A x"); r.tag("spai1_sweep"); }
+        struct_tags(Am); r.nontrivial = n > 1 && Am.col.size() > (size_t)n;
     } else {
         r.out = "bad-op";
     }
@@ -460,7 +526,7 @@ static void generate(Rng &rng, const Opts &o, std::vector<std::string> &lines) {
     const std::vector<Q> omegas = { Q::frac(18, 25), Q(1), Q::frac(2, 3), Q::frac(1, 2), Q(0), Q::frac(-1, 3) };
     const std::vector<float> his = { 1.0f, 1.1f, 1.5f }, los = { 1.0f / 30, 0.25f, 0.5f, 1.0f };
     for (long k = 0; k < N; ++k) {
-        int which = (int)rng.range(0, 22);
+        int which = (int)rng.range(0, 28);
         long n = rng.coin(1, 12) ? 1 : rng.range(2, nmax);
         int fam = (int)rng.range(0, 7);
         Mat A = gen_matrix(rng, n, fam); n = A.n;
@@ -512,6 +578,21 @@ static void generate(Rng &rng, const Opts &o, std::vector<std::string> &lines) {
             if (!ok) { F.L = from_rows(n, n, std::vector<std::vector<std::pair<long,Q>>>(n)); F.U = F.L; F.D.assign(n, Q(1)); }    // reported by the oracle when executed
             l << "relax_lu_check" << kind << kk << A << F.L << F.U << F.D;
         }
+        else if (which >= 26) {       // F-grade: ILUP as written (Model/RelaxIlup.lean): k = 0..3, families with a stored diagonal, sorted rows
+            if (n > 7) n = rng.range(2, 7); int fam2 = (int)rng.range(0, 7); A = gen_matrix(rng, n, fam2); n = A.n; x = gen_vec(rng, n); f = rng.coin(1, 4) ? mat_vec(A, x) : gen_vec(rng, n); tmp = gen_vec(rng, n);
+            long kk = rng.range(0, 3); int sub = (int)rng.range(0, 6);
+            if (sub <= 1) l << "relax_ilupw_factors" << kk << A; else if (sub == 2) l << "relax_ilupw_pad" << kk << A;
+            else if (sub <= 4) l << (sub == 3 ? "relax_ilupw_pre" : "relax_ilupw_post") << kk << rng.pick(omegas) << A << f << x << tmp; else l << "relax_ilupw_apply" << kk << A << f;
+        }
+        else if (which >= 23) {       // F-grade: SPAI-1 against the faithful model (Model/RelaxSpai1.lean): all families, unsorted rows, duplicates,
+                                      // a missing diagonal (local problems with fewer rows than columns: the wide branch of QR::solve)
+            if (n > 6) n = rng.range(2, 6); A = gen_matrix(rng, n, (int)rng.range(0, 7)); n = A.n;
+            if (rng.coin(1, 6)) { auto rows = to_rows(A); long i0 = rng.range(0, n - 1); if (rows[i0].size() > 1) { std::vector<std::pair<long,Q>> nr; for (auto &cv : rows[i0]) if (cv.first != i0) nr.push_back(cv); rows[i0] = nr; A = from_rows(n, n, rows); } }
+            x = gen_vec(rng, n); f = rng.coin(1, 4) ? mat_vec(A, x) : gen_vec(rng, n); tmp = gen_vec(rng, n);
+            maybe_unsort();
+            int sub = (int)rng.range(0, 5);
+            if (sub <= 1) l << "relax_spai1_m" << A; else if (sub <= 3) l << (sub == 2 ? "relax_spai1_pre" : "relax_spai1_post") << A << f << x << tmp; else l << "relax_spai1_apply" << A << f;
+        }
         else if (which >= 20) {       // ILU(k) / ILUP as written (modelled in Lean: Model/RelaxIluk.lean, ilup = ilu0 on the padded pattern)
             int fam2 = (int)rng.range(0, 5); A = gen_matrix(rng, n, fam2); n = A.n; x = gen_vec(rng, n); f = rng.coin(1, 4) ? mat_vec(A, x) : gen_vec(rng, n); tmp = gen_vec(rng, n);
             long kk = rng.coin(1, 8) ? n : rng.range(0, 3);
@@ -544,6 +625,10 @@ static void generate(Rng &rng, const Opts &o, std::vector<std::string> &lines) {
     lines.push_back("relax_ilu0_apply 2 2 2 1 1 0 1 1 1 1 2 1 1");                  // unsorted row
     lines.push_back("relax_ilu0_apply 2 2 1 0 1 1 0 1 2 1 1");                      // last row has no entry at or right of the diagonal
     lines.push_back("relax_spai0_pre 2 3 1 0 1 1 1 1 2 1 1 2 1 1 2 0 0");           // not square
+    lines.push_back("relax_ilupw_factors 1 2 2 2 1 1 0 1 1 1 1");                   // unsorted row
+    lines.push_back("relax_ilupw_pad 1 2 2 1 1 1 1 1 1");                           // row 0 stores no diagonal
+    lines.push_back("relax_spai1_m 2 2 0 1 1 2");                                   // empty row
+    lines.push_back("relax_spai1_apply 2 2 1 0 1 1 1 1 1 1");                       // vector size does not fit
 }
 
 VH_MAIN(generate, execute)
